@@ -14,6 +14,7 @@ def run(tier):
                                ("Admm", "Admm_a.cfg"), ("Admm", "Admm_b.cfg"), ("Admm", "Admm_c.cfg"),
                                ("Admm", "Admm_d.cfg"), ("IndexMaps", "IndexMaps_classes.cfg")] +
                          ([("ZUpdate", "ZUpdate_big.cfg")] if tier == "thorough" else []))
+    drv_admm.zstep_replay(rep, tier, {"C02"})          # exact consensus step, judged by TLC on integers
     ok, acc, fail = drv_admm.solver_sweep(rep, tier, {"C02"})
     for n in ("solver_converged", "kkt_ok", "lam_matrix_sym", "lam_matrix_const", "adaptive_rho", "unconditional_clause",
               "cov_rank_deficient", "solver_budget_exhausted"):
